@@ -792,6 +792,8 @@ class Interp:
             clsmod = next((m for m, c in source.mro(obj.obj.mod, obj.obj.clsnode) if c is obj.cls), obj.obj.mod)
             fs = source.find_method(clsmod, obj.cls, name, skip_first=True)
             if fs is None:
+                if name == "__init__":
+                    return lambda *a, **k: None  # object.__init__
                 raise Undecided(f"super().{name} not found")
             return self.method_of(obj.obj, fs)
         try:
